@@ -7,6 +7,7 @@ import (
 	"sync"
 	"testing"
 
+	"github.com/elementsproject/peerswap/policy"
 	"github.com/elementsproject/peerswap/swap"
 	"pgregory.net/rapid"
 
@@ -31,6 +32,9 @@ type sweepScenario struct {
 	FaultKind sim.FaultKind
 	// SilentAfter: after that many environment steps the peers stop hearing from each other (-1: never)
 	SilentAfter int
+	// ThroughCsv: once the peers are silent the chain advances past the csv and the watchers report it,
+	// all inside the run whose crash points are swept
+	ThroughCsv bool
 }
 
 // sweepSpec is what a property plugs into the sweep.
@@ -38,17 +42,18 @@ type sweepSpec struct {
 	monitor func(*stats.Collector) func(*Hist)
 	final   func(*Hist, *stats.Collector) // optional closure + end-state check
 	silence bool                          // generate cut points where the peer goes silent
+	csv     bool                          // after the peer went silent the csv matures inside the swept run
 }
 
 func (s sweepScenario) key() string {
-	return fmt.Sprintf("%s/%s/lnd=%v/%s:%s+%d/%d/silent@%d", s.Type, s.Chain, s.LND, s.FaultNode, s.FaultCall, s.FaultSkip, s.FaultKind, s.SilentAfter)
+	return fmt.Sprintf("%s/%s/lnd=%v/%s:%s+%d/%d/silent@%d", s.Type, s.Chain, s.LND, s.FaultNode, s.FaultCall, s.FaultSkip, s.FaultKind, s.SilentAfter) + map[bool]string{true: "/csv", false: ""}[s.ThroughCsv]
 }
 
 var sweepFaultCalls = []string{"", "", "ln.ProbePayment", "ln.SpendableMsat", "ln.ReceivableMsat", "ln.DecodePayreq", "ln.GetPayreq", "msg.Send", "msg.Send", "store.UpdateData",
 	"wallet.CreateOpeningTransaction", "wallet.GetFlatOpeningTXFee", "wallet.CreatePreimageSpendingTransaction", "watcher.GetBlockHeight",
 	"pay:fee:fail", "pay:claim:fail", "pay:claim:err-pending", "pay:claim:err-settled"}
 
-func genSweepScenario(t *rapid.T, silence bool) sweepScenario {
+func genSweepScenario(t *rapid.T, silence, csv bool) sweepScenario {
 	s := sweepScenario{
 		SilentAfter: -1,
 		Type:  rapid.SampledFrom([]string{"out", "in"}).Draw(t, "swType"),
@@ -63,6 +68,11 @@ func genSweepScenario(t *rapid.T, silence bool) sweepScenario {
 	}
 	if silence && rapid.Bool().Draw(t, "swGoesSilent") {
 		s.SilentAfter = rapid.IntRange(0, 12).Draw(t, "swSilentAfter")
+	}
+	if csv {
+		// the peers fall silent a few steps after the maker broadcast its opening transaction
+		s.SilentAfter = rapid.IntRange(0, 3).Draw(t, "swSilentAfterOpening")
+		s.ThroughCsv = true
 	}
 	return s
 }
@@ -114,10 +124,20 @@ func runSweepScenario(t *rapid.T, s sweepScenario, crashAt int, monitor func(*Hi
 	h.handleCrash(h.A, crashed)
 	h.afterStep()
 	// an honest, live environment: deliver, notify, confirm - until nothing moves any more
-	idle := 0
+	idle, openedAt := 0, -1
 	for i := 0; i < 70 && !h.stop && idle < 2; i++ {
 		before, tl := len(h.Ops), h.W.TraceLen()
-		if s.SilentAfter >= 0 && i >= s.SilentAfter {
+		silentFrom := s.SilentAfter
+		if s.ThroughCsv && silentFrom >= 0 {
+			if openedAt < 0 && (len(h.A.Openings) > 0 || len(h.B.Openings) > 0) {
+				openedAt = i
+			}
+			silentFrom = 1 << 30
+			if openedAt >= 0 {
+				silentFrom = openedAt + s.SilentAfter
+			}
+		}
+		if silentFrom >= 0 && i >= silentFrom {
 			for _, m := range h.W.PendingMsgs() {
 				h.W.Drop(m)
 			}
@@ -132,7 +152,46 @@ func runSweepScenario(t *rapid.T, s sweepScenario, crashAt int, monitor func(*Hi
 			idle = 0
 		}
 	}
+	if s.ThroughCsv && !h.stop {
+		// nobody talks any more; the csv matures and the watchers report it
+		for _, m := range h.W.PendingMsgs() {
+			h.W.Drop(m)
+		}
+		h.W.Mine(s.Chain, csvFor(s.Chain))
+		h.opf("mine(%s,csv)", s.Chain)
+		for i, idle := 0, 0; i < 12 && !h.stop && idle < 2; i++ {
+			before, tl := len(h.Ops), h.W.TraceLen()
+			for _, m := range h.W.PendingMsgs() {
+				h.W.Drop(m)
+			}
+			h.actWatcherAll()
+			h.afterStep()
+			if len(h.Ops) == before && h.W.TraceLen() == tl {
+				idle++
+			} else {
+				idle = 0
+			}
+		}
+	}
 	return h
+}
+
+// actWatcherAll delivers every due watcher callback (first one per node).
+func (h *Hist) actWatcherAll() {
+	for _, n := range h.nodes() {
+		if !h.alive(n) {
+			continue
+		}
+		evs := n.DueWatcherEvents()
+		if len(evs) == 0 {
+			continue
+		}
+		ev := evs[0]
+		crashed, err := n.DeliverWatcherEvent(ev)
+		h.opf("watcher(%s,%s,%s) err=%v crashed=%v", n.Name, ev.Kind, ev.SwapId[:6], err != nil, crashed)
+		h.class("watcher:" + ev.Kind)
+		h.handleCrash(n, crashed)
+	}
 }
 
 // actResolvePendingHonest settles every pending HTLC (the payee knows the preimage).
@@ -156,7 +215,7 @@ func crashSweep(t *rapid.T, col *stats.Collector, spec sweepSpec) {
 	if monitor == nil {
 		monitor = func(*stats.Collector) func(*Hist) { return func(*Hist) {} }
 	}
-	s := genSweepScenario(t, spec.silence)
+	s := genSweepScenario(t, spec.silence, spec.csv)
 	sweepLenMu.Lock()
 	n, ok := sweepLen[s.key()]
 	sweepLenMu.Unlock()
@@ -184,7 +243,7 @@ func crashSweep(t *rapid.T, col *stats.Collector, spec sweepSpec) {
 			crashedAt = tr[idx].Call + "." + tr[idx].Phase
 		}
 	}
-	col.Case(s.key()+fmt.Sprintf("@%d", idx), crashedAt != "none", map[string]interface{}{"scenario": s.key(), "crash_index": idx, "crashed_at": crashedAt, "ops": h.Ops}, "crash-at:"+crashedAt, "fault:"+s.FaultCall)
+	col.Case(s.key()+fmt.Sprintf("@%d", idx), crashedAt != "none", map[string]interface{}{"scenario": s.key(), "crash_index": idx, "crashed_at": crashedAt, "ops": h.Ops}, append(h.classList(), "crash-at:"+crashedAt, "fault:"+s.FaultCall)...)
 }
 
 func TestC15CrashSweep(t *testing.T) {
@@ -219,4 +278,42 @@ func TestC16CrashSweep(t *testing.T) {
 			checkC16(h, c)
 		}})
 	})
+}
+
+// finalC26: every swap that ended with the maker's csv refund must have put the peer on the suspicious
+// list - in memory, in the policy file, and still after a restart.
+func finalC26(h *Hist, col *stats.Collector) {
+	for round := 0; round < 2 && !h.stop; round++ {
+		for _, n := range h.nodes() {
+			if round == 1 {
+				n.Kill()
+				if err := n.Boot(); err != nil {
+					h.T.Fatalf("boot: %v", err)
+				}
+				n.Recover()
+			}
+			for _, sw := range n.Swaps() {
+				if sw.Current != swap.State_ClaimedCsv || sw.Data == nil || isTaker(sw) {
+					continue
+				}
+				h.class("csv-refund-ending")
+				peer := sw.Data.PeerNodeId
+				fresh, err := policy.CreateFromFile(n.PolicyPath)
+				if err != nil {
+					h.stop = col.Violation(h.T, "C26/policy-file-broken", "policy file of %s no longer loads: %v", n.Name, err)
+					return
+				}
+				if !fresh.IsPeerSuspicious(peer) || !n.Policy.IsPeerSuspicious(peer) {
+					h.stop = col.Violation(h.T, "C26/csv-refund-without-quarantine", "%s reclaimed swap %s via csv but the peer is not quarantined (file: %v, memory: %v, after restart: %v)\n%s",
+						n.Name, sw.SwapId.String()[:6], fresh.IsPeerSuspicious(peer), n.Policy.IsPeerSuspicious(peer), round == 1, h.dump())
+					return
+				}
+			}
+		}
+	}
+}
+
+func TestC26CrashSweep(t *testing.T) {
+	col := stats.Get("C26.sweep")
+	rapid.Check(t, func(t *rapid.T) { crashSweep(t, col, sweepSpec{csv: true, final: finalC26}) })
 }
